@@ -822,7 +822,7 @@ func parent(ch *Check, tier, only string, seed int64, listFailing bool) int {
 		"seed":        seed,
 		"level":       ch.Level,
 		"coverage":    cov,
-		"assumptions": ch.Assumptions,
+		"assumptions": assumptionsOf(ch),
 		"wall_s":      time.Since(start).Seconds(),
 		"violations":  len(seen),
 	}
@@ -869,4 +869,10 @@ func dedup(in []string) []string {
 		}
 	}
 	return out
+}
+
+// assumptionsOf returns the check's stated assumptions plus what every check trusts.
+func assumptionsOf(ch *Check) []string {
+	out := append([]string{}, ch.Assumptions...)
+	return append(out, "trusted: the Go toolchain and standard library, and this check's own enumerator and oracle as described in coverage.rule; nothing is claimed outside the stated alphabet and bounds")
 }
